@@ -126,8 +126,9 @@ CHECKS["C13"] = dict(
          "sqlite} + seeded random qualified statements, against implementation-only oracles O1-O6 and the Lean model (sqlfx)",
     design_ref="DESIGN.md §5 C13, §6 D8",
     note=TB + ". partial: the lift of the frame lemmas through the whole mutual walk (INSERT ... SELECT with provider-named write columns, "
-         "nested queries) is not a theorem: table-level independence for those statements rests on the differential (O1 on every case). "
-         "SQLAlchemy reflection is a black box. Known findings: D27 (wildcard vs positional naming); D8 repaired by "
+         "nested queries) is not a theorem: table-level independence for those statements rests on the differential (O1 on every case); the "
+         "theorem covers every statement without a query and SELECT / CTAS / VIEW over one flat SELECT block. "
+         "SQLAlchemy reflection is a black box. Known finding D27 (wildcard vs positional naming); D8 repaired by "
          "fixes/D8-explicit-insert-column-list-wins.patch (Model/Stmt.lean follows with patches/Stmt-D8.patch).",
     technique="Lean 4 proof (frame invariant + normal form of add_write_column) over a hand-written model + differential correspondence "
               "and implementation-only metamorphic / absolute oracles under both bundled providers",
@@ -139,16 +140,19 @@ CHECKS["C14"] = dict(
          "scoping; theorems: one lemma per Table creation site of the model (mkTable_default_eq_qualified, fallback_default_eq_qualified "
          "for the repaired Table.__init__), qualified_unaffected, placeholder_uniform, spec_default_eq_qualify(+_writes) and "
          "spec_qualified_stmt_unaffected for ALL statements (tables read/written under default S = those of the qualified statement "
-         "under no / any other default), walk_default_eq_qualify_partial (equal holder GRAPHS for every statement without a query), "
-         "dev_D17 witnesses. Tied to the code by an implementation-vs-implementation differential: generated scripts (qualified text "
+         "under no / any other default), walk_default_eq_qualify_partial + walk_flat_default_eq_qualify_partial (EQUAL holder graphs — "
+         "tables, aliases, columns, edges, order — for every statement without a query and for SELECT / INSERT..SELECT / CTAS / VIEW over "
+         "one flat SELECT block, any provider), dev_D17 witnesses. Tied to the code by an implementation-vs-implementation differential: generated scripts (qualified text "
          "rendered by Lean) + the repository's test SQL (conservative token-level rewriter) + text cases, x S in {unset, fresh, used "
          "qualifier} x mechanism {scoped override, SQLLINEAGE_DEFAULT_SCHEMA in a fresh subprocess[, both]}, comparing tables, all column "
          "paths and both cytoscape exports; plus model-vs-implementation table lineage on both sides",
     design_ref="DESIGN.md §5 C14, §6 D17",
-    note=TB + ". partial: the walk-level equality for statements WITH a query is not a theorem (subquery identity is the rendered text, "
-         "which qualification changes; needs graph equivalence modulo subquery renaming): it is checked differentially. S ranges over plain "
-         "lower-case names; how the default reaches the call (env / scoped override) is C15. Known finding D26 (select-list subquery loses "
-         "the schema of its table); D17 repaired by fixes/D17-default-schema-at-call-time.patch.",
+    note=TB + ". partial: the walk-level equality for statements with NESTED queries (derived tables, CTEs, subqueries, set operations) is "
+         "not a theorem (subquery identity is the rendered text, which qualification changes; needs graph equivalence modulo subquery "
+         "renaming through a 30-function mutual recursion for which Lean generates no equation lemmas): it is checked differentially. S ranges over plain "
+         "lower-case names; how the default reaches the call (env / scoped override) is C15. Known findings D26 (select-list subquery loses "
+         "the schema of its table), D16 (hash order of relations under an unqualified `*`, C11's subject); D17 repaired by "
+         "fixes/D17-default-schema-at-call-time.patch.",
     technique="Lean 4 proof (mutual structural induction over the typed AST against the denotational table specification) + "
               "implementation-vs-implementation metamorphic differential with Lean-rendered partner texts",
 )
